@@ -45,6 +45,8 @@ def run(ctx: Context) -> None:
     # "does not depend on verbosity" and "the checkpoint holds the triggering batch": verbosity reaches only prints, create_checkpoint changes no calibrator state (C01-R7)
     from . import c01
     ctx.rule(c01.r7_non_interference, v)
+    # the convergence test reads losses_samp[:n_sampled_params]: the counter and the arrays grow by the same number of rows every batch (alignment rule of C02)
+    ctx.rule(c02.r2_aligned, v)
     # "... is part of the checkpoint": the history and the two progress counters written by the checkpoint after the stopping batch come back as themselves
     from . import c18
     ctx.rule(c18.restored_records_identity, ("current_batch_index", "n_sampled_params"))
